@@ -279,10 +279,25 @@ fn run_thread_arbiter(c: &Case, multi_thread_rt: bool) -> Observed {
         log.lock().unwrap().push(LogEv::Joined);
     }
     exit_flag_after_join.get_or_insert(flag.load(Ordering::SeqCst));
-    // once the arbiter is gone, spawn reports false
-    let gone_ok = !h.spawn_fn(|| {}) && !h.stop();
+    // once the arbiter is gone, spawn reports false - and what was handed to it never runs, on
+    // no thread (this thread has a live System: nothing may be re-routed to its arbiter)
+    let ran_anyway = Arc::new(AtomicBool::new(false));
+    let (r1, r2) = (ran_anyway.clone(), ran_anyway.clone());
+    let gone_ok = !h.spawn_fn(move || r1.store(true, Ordering::SeqCst))
+        && !h.spawn(async move {
+            r2.store(true, Ordering::SeqCst);
+        })
+        && !h.stop();
     if !gone_ok {
         notes.push("spawn/stop on a handle of a joined arbiter returned true".into());
+    }
+    _runner.block_on(async {
+        for _ in 0..5 {
+            tokio::task::yield_now().await;
+        }
+    });
+    if ran_anyway.load(Ordering::SeqCst) {
+        notes.push("a command handed to a joined arbiter (spawn returned false) ran anyway, on another arbiter".into());
     }
     std::thread::sleep(Duration::from_millis(0));
     let log = log.lock().unwrap().clone();
@@ -370,7 +385,7 @@ fn run_system_arbiter(c: &Case, second_system: bool) -> Observed {
 fn check(c: &Case, o: &Observed) -> Option<(String, String)> {
     let bad = |sig: &str, msg: String| Some((format!("C10:{sig}"), msg));
     if let Some(n) = o.notes.first() {
-        let sig = if n.contains("returned true") { "spawn-true-after-arbiter-gone" } else { "arbiter-stuck" };
+        let sig = if n.contains("returned true") { "spawn-true-after-arbiter-gone" } else if n.contains("ran anyway") { "ran-after-arbiter-gone" } else { "arbiter-stuck" };
         return bad(sig, n.clone());
     }
     let starts: Vec<(usize, ThreadId, bool)> = o.log.iter().filter_map(|e| if let LogEv::Start { idx, thread, ctx_ok } = e { Some((*idx, *thread, *ctx_ok)) } else { None }).collect();
@@ -557,6 +572,29 @@ fn enumerate(max_len: usize, full_cut_len: usize, mt_len: usize) -> Vec<Case> {
     out
 }
 
+/// A stop behind a backlog: k commands, the stop and one late command are queued in one batch
+/// while the arbiter thread is busy (boundary sizes of per-poll budgets).
+fn backlog_cases(max_k: usize) -> Vec<Case> {
+    let mut ks: Vec<usize> = (0..=max_k.min(40)).collect();
+    for k in [63usize, 64, 65, 127, 128, 129, 255, 256, 257] {
+        if k <= max_k {
+            ks.push(k);
+        }
+    }
+    let mut out = vec![];
+    for k in ks {
+        for filler in [Cmd::F, Cmd::A] {
+            let mut cmds = vec![filler; k];
+            cmds.push(Cmd::S);
+            cmds.push(Cmd::F);
+            for subject in [Subject::ThreadArbiter, Subject::MtArbiter] {
+                out.push(Case { subject, cmds: cmds.clone(), batches: vec![k + 2], via: Via::Owner });
+            }
+        }
+    }
+    out
+}
+
 pub fn run(args: &Args) -> i32 {
     let mut rep = Report::new(args, "model_checking");
     if let Some(p) = &args.replay {
@@ -584,7 +622,10 @@ pub fn run(args: &Args) -> i32 {
     let max_len = args.opt_usize("len", args.tier.pick(4, 6));
     let full_cut = args.opt_usize("cuts", args.tier.pick(4, 5));
     let mt_len = args.opt_usize("mtlen", args.tier.pick(3, 5));
-    let cases = enumerate(max_len, full_cut, mt_len);
+    let mut cases = enumerate(max_len, full_cut, mt_len);
+    let n_enumerated = cases.len();
+    cases.extend(backlog_cases(args.opt_usize("backlog", args.tier.pick(129, 257))));
+    rep.set("histories_with_a_stop_behind_a_backlog", cases.len() - n_enumerated);
     let mut bag = VioBag::default();
     let (mut with_stop, mut multi_batch, mut steps) = (0u64, 0u64, 0u64);
     // in chunks, so that a systematically failing tree (every case waiting for a watchdog) is
